@@ -816,6 +816,30 @@ def x_rawlimit(p):
             "out": out, "nsteps": len(p["steps"]), "steps": steps, "above": viol_up, "below": viol_down}
 
 
+@executor("rawsplit")
+def x_rawsplit(p):
+    """partition_volume for volumes a hair above / below a multiple of max_volume (relative offsets of 1e-12 .. 1e-6, far above
+    one unit in the last place, far below anything the exact grid of the other checks can express).  The literal statements of
+    C06 are evaluated here on the raw floats in exact rational arithmetic: number of steps = ceil(v / M), every step positive
+    and <= M, the steps add up to v."""
+    import math
+    from fractions import Fraction as Fr
+
+    from robotools.worklists.utils import partition_volume
+
+    M = p["m"][0] / p["m"][1]
+    v = p["k"] * M * (1.0 + p["sign"] * 10.0 ** p["exp"])
+    exc, steps = None, []
+    try:
+        steps = [float(s) for s in partition_volume(v, max_volume=(int(M) if p.get("mint") and float(M).is_integer() else M))]
+    except Exception as e:  # noqa
+        exc = e
+    want = math.ceil(Fr(v) / Fr(M))
+    return {"fn": "rawsplit", "id": f"M={M} k={p['k']} {'+' if p['sign'] > 0 else '-'}1e{p['exp']}", "out": outcome_class(exc),
+            "count": len(steps) == want, "bounded": all(0 < s <= M for s in steps),
+            "sum": bool(steps) and abs(math.fsum(steps) - v) <= 1e-9 * v, "n": len(steps), "want": int(want)}
+
+
 # ----------------------------------------------------------------------------- C08 across object life times
 @executor("poslife")
 def x_poslife(p):
